@@ -176,7 +176,7 @@ def brute_count_s1(N: int, entry: int | None = 0) -> int:
 # S4 - arbitrary digraphs for the query functions
 
 
-def s4_space(N: int, K: int, max_edges: int | None = None):
+def s4_space(N: int, K: int, max_edges: int | None = None, backedges: bool = False):
     """N blocks n0.. plus the external name `ext`; K target slots per block with
     values in {-1 (absent), 0..N-1, N (= ext)}, absent slots last; duplicates
     and self loops allowed."""
@@ -192,7 +192,19 @@ def s4_space(N: int, K: int, max_edges: int | None = None):
     cube_vars = [T[0][0], T[0][1]] if K >= 2 else [T[0][0]]
     if N >= 2:
         cube_vars = cube_vars + [T[1][0]]
-    return z3.And(cs), cube_vars, {"N": N, "K": K, "T": T}
+    aux = {"N": N, "K": K, "T": T}
+    if backedges:
+        # BE[i] = k: the name in slot k of block i is declared a back edge (every occurrence of that name then is one)
+        BE = [z3.Int(f"be{i}") for i in range(N)]
+        for i in range(N):
+            cs += [BE[i] >= -1, BE[i] < K]
+            for k in range(K):
+                cs.append(z3.Implies(BE[i] == k, T[i][k] != -1))
+                # canonical: the first slot that holds the name
+                for k2 in range(k):
+                    cs.append(z3.Implies(BE[i] == k, T[i][k2] != T[i][k]))
+        aux["BE"] = BE
+    return z3.And(cs), cube_vars, aux
 
 
 def realise_s4(E, aux):
@@ -202,7 +214,11 @@ def realise_s4(E, aux):
     for i in range(N):
         row = [E.realize(T[i][k]) for k in range(K)]
         tg.append([names[t] for t in row if t != -1])
-    return {"names": names[:N], "targets": tg}
+    desc = {"names": names[:N], "targets": tg}
+    if "BE" in aux:
+        be = [E.realize(b) for b in aux["BE"]]
+        desc["backedges"] = [[tg[i][b]] if b >= 0 else [] for i, b in enumerate(be)]
+    return desc
 
 
 # ---------------------------------------------------------------------------
